@@ -1114,6 +1114,255 @@ theorem tablet_dc_replicas_subset (rc : RCluster) (hist : List C15.Op) (hv : C15
   obtain ⟨hx1, _⟩ := List.mem_filter.mp hx
   exact List.mem_filterMap.mpr ⟨x, hx1, hr⟩
 
+/-! ## 5b. Metadata refreshes never leave a tablet with a truncated replica list (C15 maintenance, composed) -/
+
+section Refresh
+open ScyllaVerif.Tablets
+
+/-- No tablet of the table still waits for an unknown replica. -/
+def AllResolved (tbl : Table) : Prop := ∀ t ∈ tbl.tablets, t.failed = none
+
+/-- The flags of the tablet map are honest: a cleared `has_unknown_replicas` (of the whole map, of a table) means that
+no tablet (of the map, of the table) has an unresolved replica. This is what lets `perform_maintenance` skip work. -/
+structure FlagsHonest (inf : Info) : Prop where
+  tables : ∀ e ∈ inf.tables, C15.FlagInv e.2
+  whole : inf.hasUnknown = false → ∀ e ∈ inf.tables, AllResolved e.2
+
+private theorem mem_alSet' {κ β : Type} [DecidableEq κ] (k : κ) (v : β) (m : List (κ × β)) :
+    ∀ e ∈ alSet k v m, e = (k, v) ∨ e ∈ m := by
+  induction m with
+  | nil => intro e he; simp [alSet] at he; exact Or.inl he
+  | cons x m ih =>
+    obtain ⟨k', v'⟩ := x
+    intro e he
+    simp only [alSet] at he
+    split at he
+    · rcases List.mem_cons.mp he with rfl | h
+      · exact Or.inl rfl
+      · exact Or.inr (List.mem_cons_of_mem _ h)
+    · rcases List.mem_cons.mp he with rfl | h
+      · exact Or.inr List.mem_cons_self
+      · rcases ih e h with r | r
+        · exact Or.inl r
+        · exact Or.inr (List.mem_cons_of_mem _ r)
+
+private theorem alGet_mem' {κ β : Type} [DecidableEq κ] (k : κ) (v : β) (m : List (κ × β)) (h : alGet k m = some v) :
+    (k, v) ∈ m := by
+  induction m with
+  | nil => simp [alGet] at h
+  | cons x m ih =>
+    obtain ⟨k', v'⟩ := x
+    simp only [alGet] at h
+    split at h
+    · rename_i hk
+      cases h; subst hk; exact List.mem_cons_self
+    · exact List.mem_cons_of_mem _ (ih h)
+
+/-- `add_tablet` keeps old tablets or the new one, nothing else. -/
+private theorem addTablet_mem (tbl : Table) (new : Tablet) : ∀ t ∈ (tbl.addTablet new).1.tablets, t = new ∨ t ∈ tbl.tablets := by
+  intro t ht
+  unfold Table.addTablet at ht
+  cases h : addTabletList tbl.tablets new with
+  | none => rw [h] at ht; exact Or.inr ht
+  | some l =>
+    rw [h] at ht
+    simp only [] at ht
+    unfold addTabletList at h
+    simp only [] at h
+    split at h
+    · cases h
+      rcases List.mem_append.mp ht with hm | hm
+      · exact Or.inr (List.mem_of_mem_take hm)
+      · rcases List.mem_cons.mp hm with rfl | hm
+        · exact Or.inl rfl
+        · exact Or.inr (List.mem_of_mem_drop hm)
+    · cases h
+
+private theorem addTablet_flag (tbl : Table) (new : Tablet) :
+    (tbl.addTablet new).1.hasUnknown = (tbl.hasUnknown || new.failed.isSome) := by
+  unfold Table.addTablet
+  cases addTabletList tbl.tablets new <;> rfl
+
+private theorem flagInv_addTablet {tbl : Table} (h : C15.FlagInv tbl) (new : Tablet) : C15.FlagInv (tbl.addTablet new).1 := by
+  intro hf t ht
+  rw [addTablet_flag] at hf
+  simp only [Bool.or_eq_false_iff] at hf
+  rcases addTablet_mem tbl new t ht with rfl | hm
+  · cases hn : t.failed with
+    | none => rfl
+    | some r => rw [hn] at hf; simp at hf
+  · exact h hf.1 t hm
+
+private theorem flagInv_empty : C15.FlagInv Table.empty := by
+  intro _ t ht; simp [Table.empty] at ht
+
+/-- **Learning a tablet keeps the flags honest** (`TabletsInfo::add_tablet`, `TableTablets::add_tablet`: a tablet with an
+unknown replica raises both flags). -/
+theorem learn_keeps_flags_honest {inf : Info} (h : FlagsHonest inf) (spec : String × String) (t : Tablet) :
+    FlagsHonest (inf.addTablet spec t).1 := by
+  have hcur : C15.FlagInv ((alGet spec inf.tables).getD Table.empty) := by
+    cases hg : alGet spec inf.tables with
+    | none => exact flagInv_empty
+    | some c => exact h.tables _ (alGet_mem' _ _ _ hg)
+  have hshape : (inf.addTablet spec t).1 =
+      ⟨alSet spec (((alGet spec inf.tables).getD Table.empty).addTablet t).1 inf.tables,
+        inf.hasUnknown || t.failed.isSome⟩ := rfl
+  rw [hshape]
+  refine ⟨?_, ?_⟩
+  · intro e he
+    rcases mem_alSet' _ _ _ e he with rfl | hm
+    · exact flagInv_addTablet hcur t
+    · exact h.tables e hm
+  · intro hf e he
+    simp only [Bool.or_eq_false_iff] at hf
+    rcases mem_alSet' _ _ _ e he with rfl | hm
+    · intro u hu
+      rcases addTablet_mem _ t u hu with rfl | hm
+      · cases hn : u.failed with
+        | none => rfl
+        | some r => rw [hn] at hf; simp at hf
+      · cases hg : alGet spec inf.tables with
+        | none => rw [hg] at hm; simp [Table.empty] at hm
+        | some c =>
+          rw [hg] at hm
+          exact h.whole hf.1 _ (alGet_mem' _ _ _ hg) u hm
+    · exact h.whole hf.1 e hm
+
+/-- **After a refresh no tablet has a truncated replica list** (`TabletsInfo::perform_maintenance`, whatever the
+keyspaces, removed, current and re-created nodes): every tablet the map still holds has all its replicas resolved -
+the ones learnt with an unknown replica were resolved against the new node set or forgotten - also when the refresh
+removed and re-created nothing, because then `has_unknown_replicas` alone opens the gate. Both flags are cleared
+honestly. (The seeded change "the map-level flag is not raised" breaks `learn_keeps_flags_honest`, hence this.) -/
+theorem refresh_resolves_all {inf : Info} (h : FlagsHonest inf) (kss : List (String × Bool × List String))
+    (rm : List Nat) (ns rc : List (Nat × Tablets.Node)) :
+    (∀ e ∈ (inf.maintenance kss rm ns rc).tables, AllResolved e.2) ∧ FlagsHonest (inf.maintenance kss rm ns rc) := by
+  -- a table is "fine" if its own flag is honest and, when the map's flag is down, it has nothing unresolved
+  let Q : ((String × String) × Table) → Prop := fun e => C15.FlagInv e.2 ∧ (inf.hasUnknown = false → AllResolved e.2)
+  have hQe : ∀ k, Q (k, Table.empty) := fun _ => ⟨flagInv_empty, fun _ t ht => by simp [Table.empty] at ht⟩
+  have key : (∀ e ∈ (inf.maintenance kss rm ns rc).tables, AllResolved e.2) := by
+    unfold Info.maintenance
+    simp only []
+    have h1 : ∀ e ∈ inf.tables.filter (fun e =>
+        match alGet e.1.1 kss with
+        | none => false
+        | some (tabletBased, tables) => tabletBased && tables.contains e.1.2), Q e :=
+      fun e he => ⟨h.tables e (List.mem_filter.mp he).1, fun hf => h.whole hf e (List.mem_filter.mp he).1⟩
+    generalize inf.tables.filter _ = kept at h1
+    have inner : ∀ (ksn : String) (tbs : List String) (acc : List ((String × String) × Table)),
+        (∀ e ∈ acc, Q e) →
+        ∀ e ∈ tbs.foldl (fun acc tb =>
+          match alGet (ksn, tb) acc with
+          | some _ => acc
+          | none => acc ++ [((ksn, tb), Table.empty)]) acc, Q e := by
+      intro ksn tbs
+      induction tbs with
+      | nil => intro acc ha; exact ha
+      | cons tb tbs ih =>
+        intro acc ha
+        simp only [List.foldl_cons]
+        apply ih
+        split
+        · exact ha
+        · intro e he
+          rcases List.mem_append.mp he with hm | hm
+          · exact ha e hm
+          · simp only [List.mem_singleton] at hm
+            subst hm; exact hQe _
+    have outer : ∀ (kl : List (String × Bool × List String)) (acc : List ((String × String) × Table)),
+        (∀ e ∈ acc, Q e) →
+        ∀ e ∈ kl.foldl (fun acc ks =>
+          if ks.2.1 then ks.2.2.foldl (fun acc tb =>
+            match alGet (ks.1, tb) acc with
+            | some _ => acc
+            | none => acc ++ [((ks.1, tb), Table.empty)]) acc
+          else acc) acc, Q e := by
+      intro kl
+      induction kl with
+      | nil => intro acc ha; exact ha
+      | cons ks kl ih =>
+        intro acc ha
+        simp only [List.foldl_cons]
+        apply ih
+        split
+        · exact inner ks.1 ks.2.2 acc ha
+        · exact ha
+    have h2 := outer kss kept h1
+    generalize kss.foldl _ kept = withEmpty at h2
+    split
+    · -- the gate is open: every table is maintained; what `maintTablet` keeps is resolved
+      intro e he
+      obtain ⟨x, _hx, rfl⟩ := List.mem_map.mp he
+      intro t ht
+      simp only [] at ht
+      rw [(C15.maintenance_eq_filterMap x.2 (h2 x _hx).1 rm ns rc).1] at ht
+      obtain ⟨u, _, hu⟩ := List.mem_filterMap.mp ht
+      exact C15.maintTablet_resolved hu
+    · -- the gate is closed: nothing was removed or re-created and the map's flag is down - honestly
+      rename_i hgate
+      have hf : inf.hasUnknown = false := by
+        cases hu : inf.hasUnknown with
+        | false => rfl
+        | true => exact absurd (by simp [hu]) hgate
+      intro e he
+      exact (h2 e he).2 hf
+  refine ⟨key, ⟨?_, fun _ => key⟩⟩
+  intro e he _ t ht
+  exact key e he t ht
+
+/-- `TabletsInfo::new()`. -/
+theorem flags_honest_empty : FlagsHonest Info.empty :=
+  ⟨by intro e he; simp [Info.empty] at he, by intro _ e he; simp [Info.empty] at he⟩
+
+/-- **Along every history** of tablet feedback and metadata refreshes (any topologies, any tablets - also naming hosts
+that are not known yet) the flags stay honest, and right after a refresh every tablet of every table has all its
+replicas resolved: `tabletReplicas` then hands the policy the tablet's COMPLETE replica list, so
+`first_attempt_is_tablet_replica` speaks about all replicas the servers named (in particular the preferred-datacenter
+one that was learnt late). -/
+theorem history_flags_honest (kss : List (String × Bool × List String)) (peers : List (Ring.Node × Nat))
+    (ops : List StateOp) : FlagsHonest ((RState.init kss peers).run kss ops).tablets := by
+  have h0 : FlagsHonest (RState.init kss peers).tablets := (refresh_resolves_all flags_honest_empty _ _ _ _).2
+  have step : ∀ (st : RState) (op : StateOp), FlagsHonest st.tablets → FlagsHonest (st.step kss op).tablets := by
+    intro st op hst
+    cases op with
+    | learn spec first last raw => exact learn_keeps_flags_honest hst spec _
+    | refresh ps => exact (refresh_resolves_all hst _ _ _ _).2
+  have key : ∀ (ops : List StateOp) (st : RState), FlagsHonest st.tablets → FlagsHonest (st.run kss ops).tablets := by
+    intro ops
+    induction ops with
+    | nil => intro st h; exact h
+    | cons op ops ih => intro st h; exact ih _ (step st op h)
+  exact key ops _ h0
+
+theorem refresh_leaves_nothing_unresolved (kss : List (String × Bool × List String)) (peers : List (Ring.Node × Nat))
+    (ops : List StateOp) (ps : List (Ring.Node × Nat)) :
+    ∀ e ∈ ((RState.init kss peers).run kss (ops ++ [.refresh ps])).tablets.tables, AllResolved e.2 := by
+  have h := history_flags_honest kss peers ops
+  have e : (RState.init kss peers).run kss (ops ++ [.refresh ps]) =
+      ((RState.init kss peers).run kss ops).step kss (.refresh ps) := by
+    simp [RState.run, List.foldl_append]
+  rw [e]
+  exact (refresh_resolves_all h _ _ _ _).1
+
+-- non-vacuity: the late-replica shape. Nodes 1 (dc0) and 2 (dc1) are known; a tablet names node 4 (unknown) and node 2;
+-- a refresh then adds node 4 at the end of the peer list (nobody removed or re-created): the tablet is complete again.
+private def n1 : Ring.Node := ⟨1, some 0, some 0⟩
+private def n2 : Ring.Node := ⟨2, some 1, some 0⟩
+private def n4 : Ring.Node := ⟨4, some 0, some 1⟩
+private def kssEx : List (String × Bool × List String) := [("k0", true, ["t0"])]
+private def stEx (ops : List StateOp) : RState := (RState.init kssEx [(n1, 0), (n2, 1)]).run kssEx ops
+private def repsEx (st : RState) : List (Nat × Nat) :=
+  ((alGet ("k0", "t0") st.tablets.tables).map (fun t => (replicasForToken t.tablets 50).getD [])).getD [] |>.map
+    (fun r => (r.1.hostId, r.2))
+example : repsEx (stEx [.learn ("k0", "t0") 1 100 [(4, 4), (2, 3)]]) = [(2, 3)] ∧
+    (stEx [.learn ("k0", "t0") 1 100 [(4, 4), (2, 3)]]).tablets.hasUnknown = true ∧
+    repsEx (stEx [.learn ("k0", "t0") 1 100 [(4, 4), (2, 3)], .refresh [(n1, 0), (n2, 1), (n4, 2)]]) = [(4, 4), (2, 3)] ∧
+    recreatedNodes (stEx []).known (refreshNodes (stEx []).known [(n1, 0), (n2, 1), (n4, 2)] 1) = [] ∧
+    removedIds (stEx []).known (refreshNodes (stEx []).known [(n1, 0), (n2, 1), (n4, 2)] 1) = [] ∧
+    -- a refresh that does not bring the node: the tablet is forgotten, never served truncated
+    repsEx (stEx [.learn ("k0", "t0") 1 100 [(4, 4), (2, 3)], .refresh [(n1, 0), (n2, 1)]]) = [] := by decide
+
+end Refresh
+
 /-! ## 6. "Live replica" spelled out (C04), the token (C03), and the composed statement -/
 
 private theorem ts_mem_keyspaces {cl : Cluster} {cfg : Config} {rq : Request} {ts : Strategy × Int}
